@@ -617,6 +617,13 @@ impl TrigramIndex {
         grams
     }
 }
+// @item rust/core/src/store/trigram_index.rs :: impl TrigramIndex::{new,add,prepare,collect_grams} (lifted)
+pub fn cmp_counts(__a: &(usize, &usize), __b: &(usize, &usize)) -> (ret: Ordering)
+{
+    let (_, count1) = __a;
+    let (_, count2) = __b;
+    count2.cmp(count1)
+}
 // @item rust/core/src/store/mod.rs :: static DEFAULT_LIMIT
 pub const DEFAULT_LIMIT: usize = 10;
 // @item rust/core/src/store/store.rs :: struct Store
@@ -698,5 +705,15 @@ impl Store {
         };
         *top_ixs = Some((self.limit, ixs.clone()));
         ixs
+    }
+}
+// @item rust/core/src/search/mod.rs :: impl Store::{top_ixs} (lifted)
+pub fn cmp_records(r1: &&Record, r2: &&Record) -> (ret: Ordering)
+{
+    {
+        r2.rating.cmp(&r1.rating).then_with(|| -> (ret: Ordering)
+        {
+            r1.title.chars.cmp(&r2.title.chars)
+        })
     }
 }
